@@ -2,7 +2,7 @@
    Layer I, decides whether an observed behaviour of the implementation satisfies the properties. *)
 From Coq Require Import List NArith Bool Arith.
 From Coq Require Import Strings.Byte.
-Require Import BS.Bytes BS.Common BS.Api BS.Format BS.Spec BS.SpecStep BS.Header.
+Require Import BS.Bytes BS.Common BS.Api BS.Format BS.Spec BS.SpecStep BS.Known BS.Header.
 Require BSgen.Consts.
 Import ListNotations.
 
@@ -11,3 +11,9 @@ Definition j_cache_header (name:list byte) (B:N) : list byte := config_header na
 Definition judge_step : sstate -> op -> sstate * (out -> bool) := spec_step j_data_header j_cache_header.
 Definition judge_files : sstate -> sfs := expected_files j_data_header j_cache_header.
 Definition judge_init : sstate := spec_init.
+Definition judge_class (s:sstate) (o:op) : N :=
+  match o with
+  | OOpen name _ _ caches _ => open_class j_data_header j_cache_header s name caches
+  | ONew name _ _ caches _ => new_class j_data_header j_cache_header s name caches
+  | _ => 0%N
+  end.
